@@ -300,3 +300,10 @@ mut("scan-subset-first-range", "C16", "yrs/src/id_set.rs", "        for (range, 
     "        match self.iter().next() {\n            Some((range, _)) => Self::is_range_covered(range, other),\n            None => true,\n        }", "C16.g")
 mut("scan-benign-subset-all", "C16", "yrs/src/id_set.rs", "        for (range, _) in self.iter() {\n            if !Self::is_range_covered(range, other) {\n                return false;\n            }\n        }\n        true",
     "        self.iter().all(|(range, _)| Self::is_range_covered(range, other))", "", kind="benign")
+mut("mirror-merge-drain-tail-off-by-one", "C16", IDS, "                for i in ai..a.len() {\n                    push_coalesced(&mut result, a[i].0.clone(), a[i].1.clone());",
+    "                for i in (ai + 1)..a.len() {\n                    push_coalesced(&mut result, a[i].0.clone(), a[i].1.clone());", "C16.h", also=["C08"])
+mut("mirror-merge-advance-wrong-cursor", "C16", IDS, "            } else if b_end < a_end {\n                bi += 1;\n                b_cur = if bi < b.len() { b[bi].0.start } else { 0 };\n                a_cur = overlap_end;",
+    "            } else if b_end < a_end {\n                bi += 1;\n                b_cur = if bi < b.len() { b[bi].0.start } else { 0 };\n                a_cur = overlap_start;", "C16.h")
+mut("mirror-merge-no-overlap-strict", "C16", IDS, "            if b_end <= a_cur {\n                push_coalesced(&mut result, b_cur..b_end, b[bi].1.clone());", "            if b_end < a_cur {\n                push_coalesced(&mut result, b_cur..b_end, b[bi].1.clone());", "C16.h")
+mut("mirror-benign-one-side-refactored", "C16", IDS, "                for i in ai..a.len() {\n                    push_coalesced(&mut result, a[i].0.clone(), a[i].1.clone());\n                }",
+    "                for k in ai..a.len() {\n                    let e = &a[k];\n                    push_coalesced(&mut result, e.0.clone(), e.1.clone());\n                }", "", kind="benign", also=["C08"])
